@@ -38,17 +38,18 @@ def run(ctx):
         de = [e for e in Q.calls(eng, "bincode::deserialize") if e["frame"] == fr.key]
         okg = False
         det = "no deserialize call"
+        from .. import lin
+        from ..terms import mk
+        ln = mk("len", mk("param", "data"))
         if len(de) == 1:
             fs = Q.closure(eng, eng.facts_at(de[0]["frame"], de[0]["block"]))
-            for t, rel, v in fs:
-                if t.op == "gt" and rel == "eq" and v == 0 and t.args[0].op == "len" and Q.path_of(t.args[0].args[0]) == "data" \
-                        and t.args[1].op == "int":
-                    det = "len(data) > %d is false" % t.args[1].args[0]
-                    okg = t.args[1].args[0] == want
-                if t.op == "le" and rel == "eq" and v == 1 and t.args[0].op == "len" and t.args[1].op == "int":
-                    det = "len(data) <= %d" % t.args[1].args[0]
-                    okg = t.args[1].args[0] == want
-            okg = okg and Q.path_of(de[0]["argv"][0]) == "data"
+            L = lin.Ctx()
+            for f in fs:
+                L.add_fact(f)
+            upper = lin.entails(L, L.lin(ln).add(lin.Lin(want), -1))                    # len <= want
+            tight = not lin.infeasible(L.constraints() + [lin.Lin(want).add(L.lin(ln), -1)])  # len == want is allowed
+            det = "decode reached only if len(data) <= %d: %s; len(data) == %d still accepted: %s" % (want, upper, want, tight)
+            okg = upper and tight and Q.path_of(de[0]["argv"][0]) == "data"
         ctx.add("C15.R1", root + "#size-guard-dominates-decode", okg,
                 "deserialisation must be reached only when len(data) <= %d: %s" % (want, det), de[0]["at"] if de else at, sample=det)
         # refusal on the other edge
@@ -56,7 +57,10 @@ def run(ctx):
         okr = False
         for (fk, b) in (err[4] if err else ()):
             f = Q.closure(eng, eng.facts_at(fk, b))
-            if any(t.op == "gt" and rel == "eq" and v == 1 for t, rel, v in f):
+            L = lin.Ctx()
+            for x in f:
+                L.add_fact(x)
+            if lin.entails(L, lin.Lin(want + 1).add(L.lin(ln), -1)):       # len >= want + 1
                 okr = True
         ctx.add("C15.R1", root + "#too-big-refused", okr, "oversized input must be refused with an error", at)
         # R3: Ok is exactly the decoder's payload, Err carries the decoder's error
